@@ -11,6 +11,15 @@
 //! (`thread::sleep(0)` between operations). Cipher code between them runs
 //! atomically - intra-call preemption is the Miri engine's part.
 
+//!
+//! Second scenario (`--scenario wl`): the general thread workload over EVERY family and build variant of the
+//! registry. The shuttle workspace builds each crate from a source copy in which every `core::sync` / `std::sync`
+//! primitive is shuttle's (gen/shadows.py, `shuttle_sync`): whatever atomics or locks a crate uses become
+//! scheduling points, so a shared instance that builds or switches state behind `&self` is interleaved with the
+//! other threads' calls, clones and conversions at exactly those points - at native speed, thousands of schedules
+//! per second, replayable from the persisted schedule. The unchanged tree uses no such primitive (only the
+//! detection cache, already seamed), so there every call runs atomically and the scenario is cheap.
+
 use aes_auto_z as auto;
 use aes_soft_z as soft;
 use cipher::{BlockCipherDecrypt, BlockCipherEncrypt, KeyInit};
@@ -215,8 +224,240 @@ fn shared_none(s0: &cpufeatures::sim::Stats, s1: &cpufeatures::sim::Stats) -> bo
     s1.detect_calls - s0.detect_calls > 2
 }
 
+// ---------------------------------------------------------------------------
+// scenario "wl": shared instances of any family / variant, calls, clones, conversions, a volume-driving thread
+
+use sim::registry::{Dir, Registry, Role, Shape, TypeInfo};
+use std::sync::OnceLock;
+
+static REG: OnceLock<Registry> = OnceLock::new();
+static WL_FAMS: OnceLock<Vec<usize>> = OnceLock::new();
+static WL_CALLS: AtomicU64 = AtomicU64::new(0);
+static WL_CLONES: AtomicU64 = AtomicU64::new(0);
+static WL_CONVS: AtomicU64 = AtomicU64::new(0);
+static WL_STORMS: AtomicU64 = AtomicU64::new(0);
+
+struct Raw {
+    p: *mut u8,
+    layout: std::alloc::Layout,
+}
+unsafe impl Send for Raw {}
+unsafe impl Sync for Raw {}
+impl Raw {
+    fn new(t: &TypeInfo) -> Raw {
+        let layout = std::alloc::Layout::from_size_align(t.size.max(1), t.align.max(16)).unwrap();
+        let p = unsafe { std::alloc::alloc_zeroed(layout) };
+        assert!(!p.is_null());
+        Raw { p, layout }
+    }
+}
+impl Drop for Raw {
+    fn drop(&mut self) {
+        unsafe { std::alloc::dealloc(self.p, self.layout) }
+    }
+}
+
+fn wl_call(t: &TypeInfo, inst: *const u8, dir: Dir, shape: Shape, data: &[u8]) -> Vec<u8> {
+    let f = t.call(dir).expect("direction");
+    let n = data.len() / t.block;
+    let mut inb = data.to_vec();
+    if shape.in_place_only() {
+        let p = inb.as_mut_ptr();
+        unsafe { f(inst, shape, p as *const u8, p, n) };
+        inb
+    } else {
+        let mut outb = vec![0u8; data.len()];
+        unsafe { f(inst, shape, inb.as_ptr(), outb.as_mut_ptr(), n) };
+        outb
+    }
+}
+
+/// sequential model: a fresh instance of the same type, block by block (runs in the caller's thread like any call)
+fn wl_model(t: &TypeInfo, key: &[u8], dir: Dir, data: &[u8]) -> Vec<u8> {
+    let r = Raw::new(t);
+    assert!(unsafe { (t.new_from_slice)(r.p, key) }, "model constructor refused the key");
+    let mut out = Vec::with_capacity(data.len());
+    for b in data.chunks(t.block) {
+        out.extend(wl_call(t, r.p, dir, Shape::Block, b));
+    }
+    unsafe { (t.drop)(r.p) };
+    out
+}
+
+#[derive(Clone)]
+enum WOp {
+    Call { inst: usize, dir: Dir, shape: Shape, data: Vec<u8>, want: Vec<u8> },
+    CloneUse { inst: usize, dir: Dir, data: Vec<u8>, want: Vec<u8> },
+    ConvUse { inst: usize, conv: usize, dir: Dir, data: Vec<u8>, want: Vec<u8> },
+    NewUse { ty: usize, key: Vec<u8>, dir: Dir, data: Vec<u8>, want: Vec<u8> },
+}
+
+fn scenario_wl() {
+    EXECUTIONS.fetch_add(1, Relaxed);
+    let reg = REG.get().expect("registry");
+    let fams = WL_FAMS.get().expect("families");
+    let mut rng = thread_rng();
+    cpufeatures::sim::bump_epoch();
+    let mask = rng.gen_bool(0.3);
+    cpufeatures::sim::set_mask(mask);
+    // one family, one build variant per execution; 1-3 shared instances (fresh / pre-used / an Enc or Dec half)
+    let fam = &reg.families[fams[rng.gen_range(0..fams.len())]];
+    let vs = &fam.variants[rng.gen_range(0..fam.variants.len())];
+    let klen = fam.key_lens[rng.gen_range(0..fam.key_lens.len())];
+    let mut key = vec![0u8; klen];
+    rng.fill(&mut key[..]);
+    let dir_of = |rng: &mut shuttle::rand::rngs::ThreadRng, t: &TypeInfo| match t.role {
+        Role::Enc => Dir::Enc,
+        Role::Dec => Dir::Dec,
+        Role::Both => {
+            if rng.gen_bool(0.5) { Dir::Enc } else { Dir::Dec }
+        }
+    };
+    let mut shared: Vec<(usize, Arc<Raw>)> = Vec::new();
+    let nshared = rng.gen_range(1..=3usize);
+    for k in 0..nshared {
+        let role = if k == 2 && fam.split { if rng.gen_bool(0.5) { Role::Enc } else { Role::Dec } } else { Role::Both };
+        let ty = vs.ty(role).unwrap();
+        let t = &reg.types[ty];
+        if !(t.send && t.sync) {
+            // not shareable by its own declaration: nothing to schedule here (the interpreter engine reports it)
+            continue;
+        }
+        let r = Raw::new(t);
+        assert!(unsafe { (t.new_from_slice)(r.p, &key) }, "constructor refused a key of an accepted length");
+        if k == 1 {
+            // pre-used in this thread: the workers start somewhere below whatever block count changes the instance
+            let pre = rng.gen_range(1..=70usize);
+            let mut data = vec![0u8; pre * t.block];
+            rng.fill(&mut data[..]);
+            let d = dir_of(&mut rng, t);
+            let want = wl_model(t, &key, d, &data);
+            let got = wl_call(t, r.p, d, Shape::Blocks, &data);
+            assert!(got == want, "C15 violation: single-threaded pre-use of {} ({} blocks) differs from a fresh instance per block", t.name, pre);
+        }
+        shared.push((ty, Arc::new(r)));
+    }
+    if shared.is_empty() {
+        return;
+    }
+    let storm = rng.gen_bool(0.5);
+    if storm {
+        WL_STORMS.fetch_add(1, Relaxed);
+    }
+    let nthreads = rng.gen_range(2..=4usize);
+    let mut programs: Vec<Vec<WOp>> = Vec::new();
+    for tid in 0..nthreads {
+        let mut prog = Vec::new();
+        let nops = if storm && tid == 0 { 6 * shared.len() } else { rng.gen_range(2..=5usize) };
+        for k in 0..nops {
+            let i = if storm && tid == 0 { k % shared.len() } else { rng.gen_range(0..shared.len()) };
+            let t = &reg.types[shared[i].0];
+            let d = dir_of(&mut rng, t);
+            let kind = if storm && tid == 0 { 0 } else { rng.gen_range(0..10u32) };
+            let nblk = if storm && tid == 0 { 8 } else { rng.gen_range(1..=3usize) };
+            let mut data = vec![0u8; nblk * t.block];
+            rng.fill(&mut data[..]);
+            match kind {
+                0..=3 => {
+                    let shape = if storm && tid == 0 { Shape::Blocks } else { sim::registry::SHAPES[rng.gen_range(0..6usize)] };
+                    let data = if shape.single() { data[..t.block].to_vec() } else { data };
+                    let want = wl_model(t, &key, d, &data);
+                    prog.push(WOp::Call { inst: i, dir: d, shape, data, want });
+                }
+                4..=6 if t.clone.is_some() => {
+                    let want = wl_model(t, &key, d, &data);
+                    prog.push(WOp::CloneUse { inst: i, dir: d, data, want });
+                }
+                7..=8 if t.role == Role::Enc => {
+                    let convs: Vec<usize> = (0..reg.convs.len()).filter(|&c| reg.convs[c].from == shared[i].0).collect();
+                    if let Some(&c) = convs.get(rng.gen_range(0..convs.len().max(1))) {
+                        let tt = &reg.types[reg.convs[c].to];
+                        let d2 = dir_of(&mut rng, tt);
+                        let both = &reg.types[vs.both];
+                        let want = wl_model(both, &key, d2, &data);
+                        prog.push(WOp::ConvUse { inst: i, conv: c, dir: d2, data, want });
+                    }
+                }
+                _ => {
+                    let role = if fam.split { [Role::Both, Role::Enc, Role::Dec][rng.gen_range(0..3usize)] } else { Role::Both };
+                    let ty = vs.ty(role).unwrap();
+                    let tt = &reg.types[ty];
+                    let d2 = dir_of(&mut rng, tt);
+                    let mut k2 = vec![0u8; klen];
+                    rng.fill(&mut k2[..]);
+                    let both = &reg.types[vs.both];
+                    let want = wl_model(both, &k2, d2, &data);
+                    prog.push(WOp::NewUse { ty, key: k2, dir: d2, data, want });
+                }
+            }
+        }
+        programs.push(prog);
+    }
+    let shared = Arc::new(shared);
+    let mut hs = Vec::new();
+    for (tid, prog) in programs.into_iter().enumerate() {
+        let shared = shared.clone();
+        hs.push(thread::spawn(move || {
+            let reg = REG.get().unwrap();
+            for (k, op) in prog.into_iter().enumerate() {
+                OPS.fetch_add(1, Relaxed);
+                match op {
+                    WOp::Call { inst, dir, shape, data, want } => {
+                        WL_CALLS.fetch_add(1, Relaxed);
+                        let t = &reg.types[shared[inst].0];
+                        let got = wl_call(t, shared[inst].1.p, dir, shape, &data);
+                        assert!(got == want, "C15 violation: thread {} op {}: {} {} {} on a shared instance returned bytes that differ from a fresh instance per block", tid, k, t.name, dir.name(), shape.name());
+                    }
+                    WOp::CloneUse { inst, dir, data, want } => {
+                        WL_CLONES.fetch_add(1, Relaxed);
+                        let t = &reg.types[shared[inst].0];
+                        let r = Raw::new(t);
+                        unsafe { (t.clone.unwrap())(shared[inst].1.p as *const u8, r.p) };
+                        thread::sleep(Duration::from_millis(0));
+                        let got = wl_call(t, r.p, dir, Shape::Blocks, &data);
+                        unsafe { (t.drop)(r.p) };
+                        assert!(got == want, "C15 violation (also C12): thread {} op {}: a clone of a shared {} taken while other threads use it returned bytes that differ from a fresh instance", tid, k, t.name);
+                    }
+                    WOp::ConvUse { inst, conv, dir, data, want } => {
+                        WL_CONVS.fetch_add(1, Relaxed);
+                        let c = &reg.convs[conv];
+                        let tt = &reg.types[c.to];
+                        let r = Raw::new(tt);
+                        unsafe { (c.by_ref)(shared[inst].1.p as *const u8, r.p) };
+                        let got = wl_call(tt, r.p, dir, Shape::Blocks, &data);
+                        unsafe { (tt.drop)(r.p) };
+                        assert!(got == want, "C15 violation (also C12): thread {} op {}: {} converted from a shared instance while other threads use it differs from a fresh combined cipher", tid, k, tt.name);
+                    }
+                    WOp::NewUse { ty, key, dir, data, want } => {
+                        let t = &reg.types[ty];
+                        let r = Raw::new(t);
+                        assert!(unsafe { (t.new_from_slice)(r.p, &key) });
+                        let got = wl_call(t, r.p, dir, Shape::Blocks, &data);
+                        unsafe { (t.drop)(r.p) };
+                        assert!(got == want, "C15 violation: thread {} op {}: a {} constructed and used while other threads work differs from a fresh instance", tid, k, t.name);
+                    }
+                }
+                thread::sleep(Duration::from_millis(0));
+            }
+        }));
+    }
+    for h in hs {
+        h.join().unwrap();
+    }
+    for (ty, r) in shared.iter() {
+        unsafe { (reg.types[*ty].drop)(r.p) };
+    }
+}
+
 fn arg<'a>(args: &'a [String], name: &str) -> Option<&'a str> {
     args.iter().position(|a| a == name).and_then(|i| args.get(i + 1)).map(|s| s.as_str())
+}
+
+fn init_wl(fams: &str) {
+    let reg = sim::registry::build();
+    let idx: Vec<usize> = if fams == "-" { (0..reg.families.len()).collect() } else { fams.split(',').map(|f| reg.family(f).unwrap_or_else(|| die(&format!("no family {}", f)))).collect() };
+    let _ = WL_FAMS.set(idx);
+    let _ = REG.set(reg);
 }
 
 fn main() {
@@ -228,7 +469,16 @@ fn main() {
             let sched = arg(&args, "--sched").unwrap_or("random").to_string();
             let dir = arg(&args, "--replay-dir").unwrap_or("/verif/replays").to_string();
             let _ = std::fs::create_dir_all(&dir);
+            let wl = arg(&args, "--scenario") == Some("wl");
+            if wl {
+                init_wl(arg(&args, "--families").unwrap_or("-"));
+            }
+            let scenario: fn() = if wl { scenario_wl } else { scenario };
             let mut cfg = Config::new();
+            // a crate that spins on an atomic must not turn the step bound into a failure
+            cfg.max_steps = shuttle::MaxSteps::ContinueAfter(2_000_000);
+            // cipher code puts key schedules and batches on the stack; shuttle's default coroutine stack is 32 KiB
+            cfg.stack_size = 1 << 20;
             cfg.failure_persistence = FailurePersistence::File(Some(dir.clone().into()));
             let before: std::collections::HashSet<_> = std::fs::read_dir(&dir).map(|d| d.flatten().map(|e| e.path()).collect()).unwrap_or_default();
             std::panic::set_hook(Box::new(|_| {}));
@@ -240,8 +490,9 @@ fn main() {
                 }
             });
             println!(
-                "STATS executions={} thread_ops={} first_use_raced={} masked_executions={} hazmat_ops={} shared_uses={}",
-                EXECUTIONS.load(Relaxed), OPS.load(Relaxed), RACED.load(Relaxed), MASKED.load(Relaxed), HAZMAT.load(Relaxed), SHARED_USES.load(Relaxed)
+                "STATS executions={} thread_ops={} first_use_raced={} masked_executions={} hazmat_ops={} shared_uses={} wl_calls={} wl_clones={} wl_convs={} wl_storms={}",
+                EXECUTIONS.load(Relaxed), OPS.load(Relaxed), RACED.load(Relaxed), MASKED.load(Relaxed), HAZMAT.load(Relaxed), SHARED_USES.load(Relaxed),
+                WL_CALLS.load(Relaxed), WL_CLONES.load(Relaxed), WL_CONVS.load(Relaxed), WL_STORMS.load(Relaxed)
             );
             match r {
                 Ok(_) => println!("RESULT ok"),
@@ -256,9 +507,21 @@ fn main() {
         }
         Some("replay") => {
             let f = args.get(2).unwrap_or_else(|| die("replay <schedule file>"));
+            let wl = arg(&args, "--scenario") == Some("wl");
+            if wl {
+                init_wl(arg(&args, "--families").unwrap_or("-"));
+            }
+            let scenario: fn() = if wl { scenario_wl } else { scenario };
             std::panic::set_hook(Box::new(|_| {}));
             let f2 = f.clone();
-            match std::panic::catch_unwind(move || shuttle::replay_from_file(scenario, f2)) {
+            match std::panic::catch_unwind(move || {
+                let sched = shuttle::scheduler::ReplayScheduler::new_from_file(f2).expect("could not load schedule from file");
+                let mut cfg = Config::new();
+                cfg.max_steps = shuttle::MaxSteps::ContinueAfter(2_000_000);
+                cfg.stack_size = 1 << 20;
+                cfg.failure_persistence = FailurePersistence::None;
+                Runner::new(sched, cfg).run(scenario)
+            }) {
                 Ok(_) => println!("NOT-REPRODUCED"),
                 Err(e) => {
                     let msg = e.downcast_ref::<String>().cloned().or_else(|| e.downcast_ref::<&str>().map(|s| s.to_string())).unwrap_or_default();
